@@ -16,8 +16,23 @@ from .ops import truth
 from .values import Unsupported, simp
 
 
+def fitted(name, fn):
+    """A sidecar invariant / havoc / variant talks about the loop's own variables.  When the code under the contract was restructured and a
+    variable no longer exists, the contract says nothing about the new code: the check ends UNDECIDED (unsupported), it does not crash"""
+    if fn is None:
+        return None
+
+    def guarded(*a, **k):
+        try:
+            return fn(*a, **k)
+        except (KeyError, AttributeError, IndexError, TypeError) as e:
+            raise Unsupported(f"the sidecar loop contract {name} does not fit the current code ({type(e).__name__}: {e}): the loop was restructured") from e
+    return guarded
+
+
 class LoopContract:
     def __init__(self, chk, name, inv, havoc, abstract=None, desc="", on_step=None, variant=None, variant_desc=""):
+        inv, havoc, abstract, on_step, variant = (fitted(name, f_) for f_ in (inv, havoc, abstract, on_step, variant))
         self.chk, self.name, self.inv, self.havoc, self.abstract, self.desc = chk, name, inv, havoc, abstract, desc
         self.on_step = on_step
         self.variant, self.variant_desc = variant, variant_desc  # variant(eng, st) -> z3 Int: >= 0 whenever the body is entered and strictly smaller after it (termination)
@@ -102,7 +117,7 @@ class ForInvariant:
     the number k of elements already processed: name.init (k = 0), name.step (k -> k+1); exit with k == n."""
 
     def __init__(self, chk, name, inv, havoc, desc=""):
-        self.chk, self.name, self.inv, self.havoc, self.desc = chk, name, inv, havoc, desc
+        self.chk, self.name, self.inv, self.havoc, self.desc = chk, name, fitted(name, inv), fitted(name, havoc), desc
 
     def __call__(self, eng, node, st):
         chk = self.chk
